@@ -207,6 +207,76 @@ Proof.
     destruct g as [|x g]; [congruence|]. reflexivity.
 Qed.
 
+(* ---------- the later gates together are ALL-OF; every divergence from login fails closed ---------- *)
+Lemma revalidation_is_group_validate p ans : revalidation_gate p ans = group_validate (p_groups p) ans.
+Proof. reflexivity. Qed.
+
+Lemma later_is_all_of p email ans :
+  request_gate lower p email && revalidation_gate p ans =
+  forallb (run_validator lower email ans) (validators_of lower p).
+Proof.
+  unfold request_gate, validators_of. rewrite revalidation_is_group_validate.
+  destruct (p_addresses p) as [|a la]; destruct (p_domains p) as [|d ld]; destruct (p_groups p) as [|g lg];
+    cbn [app forallb is_group run_validator];
+    rewrite ?andb_true_r, ?andb_true_l; try reflexivity;
+    try (rewrite <- !andb_assoc; reflexivity).
+Qed.
+
+Lemma all_of_nonempty_any_of {A} (f : A -> bool) l : l <> [] -> forallb f l = true -> existsb f l = true.
+Proof.
+  destruct l as [|a l]; [congruence|]. intros _ H. cbn [forallb] in H. apply andb_true_iff in H.
+  cbn [existsb]. rewrite (proj1 H). reflexivity.
+Qed.
+
+Lemma later_implies_login p email ans :
+  validators_of lower p <> [] ->
+  request_gate lower p email = true -> revalidation_gate p ans = true ->
+  login_gate lower p email ans = true.
+Proof.
+  intros Hne Hr Hv. apply login_any_of. apply existsb_exists.
+  apply all_of_nonempty_any_of; [exact Hne|]. rewrite <- later_is_all_of, Hr, Hv. reflexivity.
+Qed.
+
+Lemma validators_nonempty_iff p :
+  validators_of lower p <> [] <-> (p_addresses p <> [] \/ p_domains p <> [] \/ p_groups p <> []).
+Proof.
+  unfold validators_of.
+  destruct (p_addresses p) as [|a la]; destruct (p_domains p) as [|d ld]; destruct (p_groups p) as [|g lg];
+    cbn [app]; split; intros H; try congruence; try (left; congruence); try (right; left; congruence);
+    try (right; right; congruence); try (destruct H as [H|[H|H]]; congruence).
+Qed.
+
+(* exact characterisation: the two verdicts coincide iff the configured validators are unanimous *)
+Lemma login_is_existsb p email ans :
+  login_gate lower p email ans = existsb (run_validator lower email ans) (validators_of lower p).
+Proof.
+  destruct (existsb (run_validator lower email ans) (validators_of lower p)) eqn:E.
+  - apply login_any_of. apply existsb_exists. exact E.
+  - destruct (login_gate lower p email ans) eqn:L; [|reflexivity].
+    apply login_any_of in L. apply existsb_exists in L. congruence.
+Qed.
+
+Lemma same_verdict_iff_unanimous p email ans :
+  validators_of lower p <> [] ->
+  (login_gate lower p email ans = request_gate lower p email && revalidation_gate p ans <->
+   (forall v w, In v (validators_of lower p) -> In w (validators_of lower p) ->
+      run_validator lower email ans v = run_validator lower email ans w)).
+Proof.
+  intros Hne. rewrite later_is_all_of, login_is_existsb.
+  set (f := run_validator lower email ans). set (vs := validators_of lower p) in *. split.
+  - intros H v w Hv Hw. destruct (forallb f vs) eqn:Ea.
+    + rewrite forallb_forall in Ea. rewrite (Ea v Hv), (Ea w Hw). reflexivity.
+    + destruct (f v) eqn:Ev.
+      * assert (existsb f vs = true) by (apply existsb_exists; eauto). congruence.
+      * destruct (f w) eqn:Ew; [|reflexivity].
+        assert (existsb f vs = true) by (apply existsb_exists; eauto). congruence.
+  - intros H. destruct (existsb f vs) eqn:Ee.
+    + apply existsb_exists in Ee. destruct Ee as [v [Hv Ev]]. symmetry. apply forallb_forall.
+      intros w Hw. rewrite <- (H v w Hv Hw). exact Ev.
+    + destruct (forallb f vs) eqn:Ea; [|reflexivity].
+      apply all_of_nonempty_any_of in Ea; [congruence | exact Hne].
+Qed.
+
 End P.
 
 (* ---------- the full "same verdict" clause is false of the faithful model ---------- *)
